@@ -66,6 +66,8 @@ pub fn c01(g: &mut G) {
         g.emit("stream always - -".into());
         g.emit("verify".into());
     }
+    g.emit("!reuse 3".into());
+    g.emit("!conc 3".into());
     // sizes the model cannot afford (implementation against an independent oracle, in a child process)
     g.emit("!scale bigfile set 21".into());
     g.emit(format!("!scale deepkeys{}", if g.thorough { "" } else { " quick" }));
@@ -136,6 +138,9 @@ fn probes(g: &mut G, keys: &[Vec<u8>]) -> Vec<Vec<u8>> {
 }
 
 pub fn c02(g: &mut G) {
+    // history and sharing: buffers that held another FST before, one FST used by many threads
+    g.emit("!reuse 1".into());
+    g.emit("!conc 1".into());
     g.emit("!scale bigfile map 21".into());
     g.emit(format!("!scale deepkeys{}", if g.thorough { "" } else { " quick" }));
     let sets = key_sets(g);
@@ -178,6 +183,8 @@ fn bound_tokens(bkeys: &[Vec<u8>]) -> (Vec<String>, Vec<String>) {
 }
 
 pub fn c03(g: &mut G) {
+    g.emit("!reuse 2".into());
+    g.emit("!conc 2".into());
     g.emit(format!("!scale deepkeys{}", if g.thorough { "" } else { " quick" }));
     if g.thorough {
         g.emit("!scale bigfile set 21".into());
@@ -388,6 +395,15 @@ pub fn c04(g: &mut G) {
             let h = g.rng.pick(&hi).clone();
             g.emit(format!("stream {} - -", a.show()));
             g.emit(format!("stream {} {} {}", a.show(), l, h));
+        }
+        // the same kind of bound set twice (the last setting wins), with and without states
+        for t in dfas.iter().take(if g.thorough { 40 } else { 10 }) {
+            for _ in 0..3 {
+                let l = format!("{}+{}", g.rng.pick(&lo[1..]), g.rng.pick(&lo[1..]));
+                let h = format!("{}+{}", g.rng.pick(&hi[1..]), g.rng.pick(&hi[1..]));
+                g.emit(format!("stream {} {} {}", t.spec(), l, h));
+                g.emit(format!("streamst {} {} {}", t.spec(), l, h));
+            }
         }
         for a in ["str:6162", "str:_", "subseq:61", "subseq:6261", "always", "lev:6162:1"] {
             let l = g.rng.pick(&lo).clone();
